@@ -97,11 +97,16 @@ jobs = [
     dict(name='ascii_isdigit', props=P, enforce='ascii_isdigit', harness='char c; ascii_isdigit(c); VERIF_REACH;'),
     dict(name='ascii_isalnum', props=P, enforce='ascii_isalnum', replace=['ascii_isdigit'], harness='char c; ascii_isalnum(c); VERIF_REACH;'),
     dict(name='ascii_isspace', props=P, enforce='ascii_isspace', harness='char c; ascii_isspace(c); VERIF_REACH;'),
-    dict(name='xss_split_to_parts', props=P, enforce='xss_split_to_parts', timeout=600, cost=10, harness=r'''
+    dict(name='xss_split_to_parts', props=P, kind='plainloops', per_property=r'^xss_split_to_parts\.|^tags_push\.assertion', pp_chunk=16, pp_workers=14, timeout=300, cost=10,
+         complete_note='all 7 loops closed by loop contracts (goto-instrument --apply-loop-contracts); obligations are solved in chunks of 16 per cbmc process (solving them all in one process does not finish)',
+         harness=r"""
     /* the tokeniser forms p+4 and e+2 before comparing them with end: up to 3 bytes past the end (never dereferenced); the input is modelled inside an object with 4 bytes of slack (observation) */
-    size_t n; __CPROVER_assume(n <= BUF_CAP); WIT_CAP(n); char *buf = malloc(n + 4); __CPROVER_assume(buf != NULL); size_t k; g_k = k; g_in_b = buf; g_in_e = buf + n; g_last_end = OFF(buf); g_parts = 0;
+    size_t n; __CPROVER_assume(n <= BUF_CAP); WIT_CAP(n); char *buf = malloc(n + 4); __CPROVER_assume(buf != NULL); size_t k; g_k = k; g_in_b = buf; g_in_e = buf + n;
+    g_last_end = OFF(buf); g_parts = 0;
     WIT_BUF(0, buf, n);
-    xss_split_to_parts(buf, buf + n); VERIF_REACH;''', witness=dict(bufs=['in'])),
+    xss_split_to_parts(buf, buf + n);
+    __CPROVER_assert(g_last_end == OFF(buf) + n, "the parts tile the whole input: the last part ends at `end`");
+    VERIF_REACH;""", witness=dict(bufs=['in'])),
 ]
 
 UNIT = dict(
